@@ -1500,7 +1500,15 @@ pub fn redact(b: &Base, p: Pczt, r: &Recipe) -> Pczt {
     red.finish()
 }
 
-/// Forced-v2 serialisation: the canonical form PCZT values are compared through.
-pub fn ser2(p: &Pczt) -> Vec<u8> {
-    pczt::v2::Pczt::try_from(p.clone()).expect("the v2 encoding represents every PCZT").serialize()
+/// Observed inventory of the base: removing `k` with the Redactor changes the PCZT.
+pub fn base_has(b: &Base, k: &Key) -> bool {
+    let name = format!("{k:?}");
+    if let Some(v) = b.has_cache.lock().unwrap().get(&name) {
+        return *v;
+    }
+    let mut r = Recipe::default();
+    r.st.insert(*k, St::Absent);
+    let v = super::bytes::ser2(&redact(b, b.pczt.clone(), &r)) != super::bytes::ser2(&b.pczt);
+    b.has_cache.lock().unwrap().insert(name, v);
+    v
 }
